@@ -272,6 +272,15 @@ func checkTaintLinter(c *c11wfCase) (key, msg string) {
 		}
 		y = head + "      - uses: actions/github-script@v7\n        with:\n          " + k + ": console.log(" + ph + ")\n"
 		line, col = 8, 19+12+4
+	case "github-script-with-first", "github-script-with-between":
+		// the order of the keys of a step has no meaning
+		if c.Pos == "github-script-with-first" {
+			y = head + "      - with:\n          script: console.log(" + ph + ")\n        uses: actions/github-script@v7\n"
+			line, col = 7, 19+12+4
+		} else {
+			y = head + "      - name: x\n        with:\n          result-encoding: string\n          script: console.log(" + ph + ")\n        id: gs\n        uses: actions/github-script@v7\n        if: true\n"
+			line, col = 9, 19+12+4
+		}
 	case "env":
 		y = head + "      - run: echo\n        env:\n          V: " + ph + "\n"
 		script = false
@@ -534,7 +543,7 @@ func (g *c11gen) expr(depth int) string {
 
 func TestC11(t *testing.T) {
 	hx.Main(t, "C11", func(r *hx.Run) {
-		r.Rule = "expressions built from the documented untrusted paths and their trusted relatives (sibling, proper prefix, extension, other context), every segment spelled as .name / ['name'] in any letter case, array segments as [0] / [expr] / .*, object segments optionally as .* filter, embedded in operators (incl. nested and negated && / || groups on either side), parentheses, non-sanitising and sanitising calls, index positions and operands of other chains, 1-4 chains per expression; script positions (run, run block, github-script script with the input name in any letter case) and non-script positions (env, with of other actions, name, if; plain and double-quoted scalars). Oracle: stateless top-down taint model over the reference AST; reported paths and columns must equal the model's. Non-trivial = the model expects >= 1 report and the expression has >= 2 chains or a non-dot spelling or an embedding; distinct = expression text (+ position)."
+		r.Rule = "expressions built from the documented untrusted paths and their trusted relatives (sibling, proper prefix, extension, other context), every segment spelled as .name / ['name'] in any letter case, array segments as [0] / [expr] / .*, object segments optionally as .* filter, embedded in operators (incl. nested and negated && / || groups on either side), parentheses, non-sanitising and sanitising calls, index positions and operands of other chains, 1-4 chains per expression; script positions (run, run block, github-script script with the input name in any letter case, `with:` written before or after `uses:`) and non-script positions (env, with of other actions, name, if; plain and double-quoted scalars). Oracle: stateless top-down taint model over the reference AST; reported paths and columns must equal the model's. Non-trivial = the model expects >= 1 report and the expression has >= 2 chains or a non-dot spelling or an embedding; distinct = expression text (+ position)."
 		r.Assumptions = []string{"path list transcribed from docs/checks.md plus github.event.discussion.{title,body} (GitHub security hardening guide)", "object filter .* is a wildcard for exactly one segment; the first index after a filter is path-neutral", "whole-object reads (proper prefixes) are not reports"}
 		covered := map[string]bool{}
 		r.Check(t, "sema", hx.N(30000, 600000), func(rt *rapid.T) {
@@ -573,7 +582,7 @@ func TestC11(t *testing.T) {
 		r.Check(t, "linter", hx.N(4000, 60000), func(rt *rapid.T) {
 			g := &c11gen{t: rt, labels: map[string]bool{}}
 			src := g.expr(rapid.IntRange(0, 3).Draw(rt, "depth"))
-			pos := rapid.SampledFrom([]string{"run", "run", "run-block", "github-script", "github-script-key-Script", "github-script-key-SCRIPT", "env", "with-other", "with-other-script-key", "name", "if", "env-quoted", "with-other-quoted", "name-quoted", "run-quoted"}).Draw(rt, "pos")
+			pos := rapid.SampledFrom([]string{"run", "run", "run-block", "github-script", "github-script-key-Script", "github-script-key-SCRIPT", "github-script-with-first", "github-script-with-between", "env", "with-other", "with-other-script-key", "name", "if", "env-quoted", "with-other-quoted", "name-quoted", "run-quoted"}).Draw(rt, "pos")
 			c := &c11wfCase{Src: src, Pos: pos}
 			r.Eval()
 			var want []c11hit
